@@ -1365,6 +1365,11 @@ def drop_ghost_state(repo, refidents, refnames):
             if isinstance(n, ast.Attribute) and isinstance(n.ctx, ast.Store) and isinstance(n.value, ast.Name) and n.value.id == 'self' \
                     and n.attr not in refidents:
                 cand_attrs.add(n.attr)
+    # an attribute that is also named by a string (getattr / hasattr / setattr / __dict__ lookups) is not followed: not a candidate
+    for rel, m in repo.modules.items():
+        for n in ast.walk(m.tree):
+            if isinstance(n, ast.Constant) and isinstance(n.value, str) and n.value in cand_attrs:
+                cand_attrs.discard(n.value)
     fn_of = {}
     cand_locals = {}        # (rel, lname) -> set(names)
     for rel, m in repo.modules.items():
